@@ -2672,7 +2672,10 @@ event_remove_timer_nolock_(struct event *ev)
 	/* If it's not pending on a timeout, we don't need to do anything. */
 	if (ev->ev_flags & EVLIST_TIMEOUT) {
 		event_queue_remove_timeout(base, ev);
-		evutil_timerclear(&ev->ev_io_timeout);
+		/* ev_io_timeout shares storage with ev_ncalls/ev_pncalls of
+		 * signal events; only persistent non-signal events use it. */
+		if (ev->ev_closure == EV_CLOSURE_EVENT_PERSIST)
+			evutil_timerclear(&ev->ev_io_timeout);
 	}
 
 	return (0);
